@@ -57,7 +57,9 @@ CLAIMED = {
         "(induction over the pattern; reference semantics and store evaluator validated against CPython's own unpacking on every run); "
         "C13_two_stars_rejected; "
         "C13_op_table: the operator table regenerated from the code equals the data model's in-place method table; "
-        "C13_aug_name_rebinds: both branches of the emitted conditional rebind the name. Other target kinds inside patterns and other "
+        "C13_aug_name_rebinds: both branches of the emitted conditional rebind the name; C13_aug_binds_when_not_declined_partial (object model with NotImplemented: "
+        "the emitted conditional stores Python's value whenever the in-place method, if any, does not decline) and C13_aug_binds_refuted (a declining method: "
+        "known finding K-inplace-notimplemented, witness replayed on the real code on every run). Other target kinds inside patterns and other "
         "placements are decided by AST correspondence of the whole-converter model plus differential execution (support).",
    note=TRUST + "Unpack.v reference semantics of indexing/slicing/unpacking is hand-written from the language reference and validated against CPython by differential execution.",
    technique="Coq proof (induction over the target list and over nested patterns, lia arithmetic on negative indices/slices, position-derived names) over the converter model + generated operator table + AST correspondence + differential execution",
@@ -154,7 +156,9 @@ CLAIMED = {
         "statements: a statement kind outside the table at ANY nesting depth and position the traversal reaches makes conversion fail; "
         "yield / yield from / await are refused by the expression rewriter; break/continue outside a loop and return outside a "
         "function are refused; a second starred target is refused (C13_two_stars_rejected). Statements after a literal "
-        "break/continue/return in the same block are never converted (they cannot run) and are outside the statement.",
+        "break/continue/return in the same block are never converted (they cannot run): what they contain is not checked - two known findings "
+        "(K-dead-code-unchecked: a `yield` there no longer makes the function a generator; K-annotation-yield-unchecked: a yield inside a dropped annotation), "
+        "witnesses replayed on the real code on every run.",
    note=TRUST + "That the rewriter reaches every sub-expression and that Lower.v mirrors the traversal is tied by AST/error-class correspondence on programs with every unsupported construct injected at every reachable position.",
    technique="Coq proof by structural induction over the statement AST (custom nested induction principle) + generated dispatch table + injection-based correspondence/oracle",
    ref="5/C08"),
@@ -190,7 +194,7 @@ CLAIMED = {
         "installation of the members, and only then the decorators - last listed first, each applied to the name as bound then and "
         "rebinding it). Method kinds, MRO, super() are decided by executing the "
         "1900-program skeleton product (support). Class-creation hooks are excluded by the property.",
-   note=TRUST + "ClassNs.v models dict/class-namespace ordering; the class object is created before its body runs (visible only to class-creation hooks).",
+   note=TRUST + "ClassNs.v models dict/class-namespace ordering; the class object is created - and its name bound - before its body runs (visible to class-creation hooks and to a body that reads the previous binding of its own name: known finding K-class-name-bound-early); private names are not mangled (known finding K-private-name-mangling); both witnesses are replayed on the real code on every run.",
    technique="Coq proof (ordered-map replay by induction with NoDup invariant; header shape theorem) + AST correspondence + differential execution of the skeleton product",
    ref="5/C12"),
  "C14": dict(
@@ -200,7 +204,7 @@ CLAIMED = {
         "of clauses mixing attributes and not-yet-imported submodules) `tmp := __import__(m, g, l, [n1, ...], level)` plus attribute reads "
         "leaves the same loaded set, execution order and ordered bindings; C14_lower_* tie those operations to what the converter model "
         "emits (C14_lower_import_in_order: one expression per module of a multi-module import, in the order written). Relative-name resolution is performed by __import__ at run time and is observed on a vendored package tree.",
-   note=TRUST + "Imports.v's statement and importlib semantics are models written from the language reference / importlib documentation, validated on corpus/pkgroot (modules log their own execution).",
+   note=TRUST + "Imports.v's statement and importlib semantics are models written from the language reference / importlib documentation, validated on corpus/pkgroot (modules log their own execution). Limit of that reference semantics: `import pkg.b as c` is modelled as the sys.modules reading, which differs from CPython when the package rebinds its attribute `b` (known finding K-import-alias-attribute, witness replayed on the real code on every run).",
    technique="Coq proof over an import-system state machine (statement semantics vs emitted operations) + shape lemmas on the converter model + differential execution on a logging package tree",
    ref="5/C14"),
  "C17": dict(
@@ -209,7 +213,9 @@ CLAIMED = {
         "depth is >= n); for the full tree height (every child of every node counted): C17_statements_height_list, "
         "C17_guarded_statements_height_list (an `if c: break` followed by n statements in a while body lowers to height 7 for EVERY n: "
         "the rest of the block sits under one test of the flag), C17_continued_statements_height_list (same after `continue` in a "
-        "for loop) and C17_returned_statements_height_list (after `return` in a function body). Partial: whether CPython accepts an expression of a given depth (C stack, parser limits, the recursion limit hit "
+        "for loop) and C17_returned_statements_height_list (after `return` in a function body); C17_elif_chain_height_short (an if/elif/.../else chain of n tests under "
+        "if_style=short_circuit is one flat `or`: height <= 6 for EVERY n) and C17_elif_chain_height_ifexp (under if_expr: exactly the nesting of the source plus one). "
+        "The programs of every height theorem are converted by the real converter on every run (tree equality with the model, the stated bound measured on the real tree). Partial: whether CPython accepts an expression of a given depth (C stack, parser limits, the recursion limit hit "
         "by CPython's own ast.unparse) is interpreter behaviour; it is measured on a geometric schedule over 30 program families (statements after an early exit included) with the "
         "default recursion limit. Two known findings (ast.unparse recursion; chain_call depth).",
    note=TRUST + "Acceptance limits of CPython are measured, not proved.",
